@@ -1149,10 +1149,13 @@ class ManifestRecursiveLoader:
             path, verify_manifests=verify_manifests)
         entry_dict = self.get_deduplicated_file_entry_dict_for_update(
             path, verify_manifests=verify_manifests)
+        # start with all the Manifests applying to path, the innermost
+        # one on top, so that a MANIFEST entry for a Manifest found
+        # in path itself can still be placed one level up
         manifest_stack = []
-        for mpath, mrpath, m in (self._iter_manifests_for_path(path)):
+        for mpath, mrpath, m in reversed(
+                self._iter_manifests_for_path(path)):
             manifest_stack.append((mpath, mrpath, m))
-            break
         directory_ids = {}
 
         it = os.walk(os.path.join(self.root_directory, path),
